@@ -462,6 +462,10 @@ func c06PlaceLocal(m *cluster.Member, kind partitions.Kind, part uint64, name st
 }
 
 func c06Child(ctx *runCtx, spec string) {
+	if strings.HasPrefix(spec, "promoted:") {
+		c06Promoted(ctx, spec)
+		return
+	}
 	if strings.HasPrefix(spec, "merge:") {
 		var sets int
 		var seed int64
@@ -502,6 +506,9 @@ func c06Run(ctx *runCtx) int {
 	}
 	batches = append(batches, batch{Spec: fmt.Sprintf("merge:%d:%d", sets, ctx.seed*10+1), Timeout: 15 * time.Minute})
 	batches = append(batches, batch{Spec: fmt.Sprintf("merge:%d:%d", sets, ctx.seed*10+2), Timeout: 15 * time.Minute})
+	for i, cfg := range [][2]int{{2, 1}, {3, 1}, {2, 0}} {
+		batches = append(batches, batch{Spec: fmt.Sprintf("promoted:%d:%d:%d", cfg[0], cfg[1], ctx.seed*10+int64(i)), Timeout: 10 * time.Minute})
+	}
 	runBatches(ctx, batches, 6, func(b batch, res batchResult, tail string) {
 		ctx.rep.Violate("c06|member-crashed-or-hung|"+strings.SplitN(b.Spec, ":", 2)[0], fmt.Sprintf("child %s died (exit %d timeout=%v): %s", b.Spec, res.ExitCode, res.TimedOut, lastLines(tail, 12)), map[string]interface{}{"batch": b.Spec})
 	})
